@@ -148,5 +148,359 @@ def gen_tables(ctx):
     return True, f'{len(tabs)} tables'
 
 
+
+
+# ----------------------------------------------------------------------------- audit (exact definitions, sampling)
+def desc_fact(k, p):
+    r = 1
+    for i in range(p):
+        r *= (k - i)
+    return r if p <= k else 0
+
+
+def parse_grp(g, c1, c2=None):
+    if c2 is None:
+        return int(g[1:])
+    a, b = g[1:].split(c2)
+    return int(a), int(b)
+
+
+def finite_vals(words):
+    v = [dec(w, 'f64') for w in words]
+    return v if all(math.isfinite(x) for x in v) else None
+
+
+FLOOR = Fr(1, 10 ** 300)
+TOLQ = Fr(1, 10 ** 9)
+DBLMAX = Fr(2 ** 1024)
+
+
+def audit_monoderiv(l):
+    """d^p/du^p u^k = k!/(k-p)! u^(k-p); per-entry relative error (absolute floor 1e-300 for underflow)"""
+    if l.op == 'poly_monoderiv':
+        K = parse_grp(l.grp, 'K'); u = fr(l.ins[0]); ps = [int(dec(l.ins[1], 'f64'))]
+    else:
+        K, P = parse_grp(l.grp, 'K', 'P'); u = fr(l.ins[0]); ps = list(range(P + 1))
+    if len(l.outs) != len(ps) * (K + 1):
+        return float('inf'), 'shape'
+    worst = 0.0
+    for pi, p in enumerate(ps):
+        for k in range(K + 1):
+            exact = desc_fact(k, p) * u ** (k - p) if k >= p else Fr(0)
+            x = dec(l.outs[pi * (K + 1) + k], 'f64')
+            if abs(exact) >= DBLMAX:
+                if math.isfinite(x):
+                    return float('inf'), f'entry p={p} k={k}: finite {x} for a value beyond DBL_MAX'
+                continue
+            if not math.isfinite(x):
+                return float('inf'), f'entry p={p} k={k}: non-finite {x}, exact {float(exact):.3e}'
+            d = abs(Fr(x) - exact)
+            if d > FLOOR:
+                worst = max(worst, float(d / max(abs(exact), FLOOR)))
+    return worst, ''
+
+
+def audit_lagrange(l):
+    """p_i(t_j) = delta_ij for the code's coefficient matrix, evaluated exactly; error relative to the
+    conditioning scale max(1, sum_k |B[k][i]| |t_j|^k).  Returns (scaled error, absolute error)"""
+    K = parse_grp(l.grp, 'K')
+    ts = [fr(w) for w in l.ins]
+    B = [fr(w) for w in l.outs]
+    if any(b is None for b in B):
+        return None
+    worst, worst_abs = 0.0, 0.0
+    for j, t in enumerate(ts):
+        pw = [t ** k for k in range(K + 1)]
+        for i in range(K + 1):
+            val = sum(pw[k] * B[k * (K + 1) + i] for k in range(K + 1))
+            cond = sum(abs(pw[k] * B[k * (K + 1) + i]) for k in range(K + 1))
+            e = abs(val - (1 if i == j else 0))
+            worst = max(worst, float(e / max(Fr(1), cond)))
+            worst_abs = max(worst_abs, float(e))
+    return worst, worst_abs
+
+
+def audit_basisderivs(l):
+    K, N = parse_grp(l.grp, 'K', 'N')
+    x = [fr(w) for w in l.ins]
+    out = [fr(w) for w in l.outs]
+    if any(v is None for v in x + out):
+        return None
+    B, ts = x[:(K + 1) ** 2], x[(K + 1) ** 2:]
+    worst = 0.0
+    for j, t in enumerate(ts):
+        for i in range(K + 1):
+            terms = [k * B[k * (K + 1) + i] * t ** (k - 1) for k in range(1, K + 1)]
+            exact = sum(terms, Fr(0))
+            scale = max(Fr(1), sum((abs(v) for v in terms), Fr(0)))
+            worst = max(worst, float(abs(out[i * N + j] - exact) / scale))
+    return worst
+
+
+def sqrt_fr(x, bits=240):
+    """sqrt of a non-negative Fraction to ~2^-bits relative accuracy"""
+    if x == 0:
+        return Fr(0)
+    n, d = x.numerator, x.denominator
+    s = 1 << bits
+    return Fr(math.isqrt(n * d * s * s), d * s)
+
+
+def exact_int_abs(t0, t1, A, B, C):
+    """integral of |A t^2 + B t + C| over [t0,t1] (t0 <= t1) and the conditioning scale"""
+    I = lambda u: A * u ** 3 / 3 + B * u ** 2 / 2 + C * u
+    M = lambda u: abs(A) * abs(u) ** 3 / 3 + abs(B) * u ** 2 / 2 + abs(C) * abs(u)
+    roots = []
+    if A == 0:
+        if B != 0:
+            roots = [-C / B]
+    else:
+        disc = B * B - 4 * A * C
+        if disc > 0:
+            s = sqrt_fr(disc)
+            roots = sorted([(-B - s) / (2 * A), (-B + s) / (2 * A)])
+    pts = [t0] + [r for r in roots if t0 < r < t1] + [t1]
+    val = sum((abs(I(b) - I(a)) for a, b in zip(pts, pts[1:])), Fr(0))
+    return val, max(M(u) for u in pts)
+
+
+THRQ = Fr(1e-9)   # the double literal 1e-9 of the C++
+
+
+def band_allowance(t0, t1, A, B):
+    """Inside the threshold bands the code deliberately ignores the quadratic (|A| < 1e-9) and, for
+    |B| <= 1e-9, also the linear term when it looks for sign changes.  Wherever the sign it assumes is
+    wrong, |p| <= |A| t^2 (+ |B| |t|), hence  error <= 2|A| int t^2 (+ 2|B| int |t|)  over [t0,t1]
+    (DESIGN.md C20: this is how "to 1e-9" is read inside the bands).  Zero outside the bands."""
+    if not (abs(A) < THRQ):
+        return Fr(0)
+    T3 = (t1 ** 3 - t0 ** 3) / 3
+    if t0 >= 0 or t1 <= 0:
+        T2 = abs(t1 * t1 - t0 * t0) / 2
+    else:
+        T2 = (t1 * t1 + t0 * t0) / 2
+    return 2 * abs(A) * T3 + (2 * abs(B) * T2 if not (abs(B) > THRQ) else Fr(0))
+
+
+def audit_intabs(l):
+    """returns (error / tolerance-scale, exact, code, absolute error) with
+    tolerance = 1e-9 * max(1, antiderivative scale) + band allowance"""
+    x = [fr(w) for w in l.ins]
+    out = dec(l.outs[0], 'f64')
+    if any(v is None for v in x):
+        return None
+    t0, t1, A, B, C = x
+    if t0 > t1:
+        return None  # std::clamp precondition violated: undefined, not audited
+    exact, scale = exact_int_abs(t0, t1, A, B, C)
+    if not math.isfinite(out):
+        return float('inf'), float(exact), out, float('inf')
+    err = abs(Fr(out) - exact)
+    allow = band_allowance(t0, t1, A, B)
+    return float(max(Fr(0), err - allow) / max(Fr(1), scale)), float(exact), out, float(err)
+
+
+def audit_search(l):
+    """the four documented cases (+ iteration bound)"""
+    t = dec(l.ins[0], 'f64')
+    r = [dec(w, 'f64') for w in l.ins[1:]]
+    if l.op == 'search_int':
+        r = [float(int(v)) for v in r]
+    o = [dec(w, 'f64') for w in l.outs]
+    idx, iters = o[0], o[1]
+    n = len(r)
+    if idx != int(idx) or not (0 <= idx <= n):
+        return f'returned iterator outside [begin,end]: index {idx}'
+    idx = int(idx)
+    if n == 0:
+        return None if idx == 0 else f'case 1 (empty): index {idx}'
+    if t < r[0]:
+        return None if idx == n else f'case 2 (t < front): index {idx}, expected end={n}'
+    if t >= r[-1]:
+        return None if idx == n - 1 else f'case 3 (t >= back): index {idx}, expected {n - 1}'
+    if idx + 1 >= n or not (r[idx] <= t < r[idx + 1]):
+        return f'case 4: index {idx} does not bracket t'
+    if iters > n - 1:
+        return f'{iters} loop iterations on a range of {n}'
+    return None
+
+
+def is_sorted(r):
+    return all(a <= b for a, b in zip(r, r[1:]))
+
+
+class C20:
+    id = PID
+    props_files = ['SmoothProps/C20.lean']
+    props_module = 'SmoothProps.C20'
+    lean_targets = ['SmoothProps.C20']
+    translators = [gen_tables]
+    rule = ('harness/poly.cpp: monomial_derivative(s) K=0..10 x p=0..K+2 (P=0..4) x 10 strata of u (zero, +-1, unit, symmetric, tiny, '
+            'large, denormal, dyadic, overflow, generic); lagrange_basis K=0..10 x 9 node strata; polynomial_basis_derivatives x 3 kinds of B; '
+            'integrate_absolute_polynomial x 26 strata (linear root inside/left/right/at end, constant, both threshold bands, |A| or |B| exactly '
+            'at 1e-9 and one ulp off, two/one/no roots inside, roots at the interval ends, exact and near double roots, no real root, degenerate and '
+            'reversed intervals, tiny A with large B, large scale, generic); binary_interval_search: ALL sorted ranges of length <= 8 over a 4-letter '
+            'alphabet (fixed, seeded-random, int) x 9 queries, random ranges up to 2200 elements x 8 shapes x 6 query kinds, crash probes; '
+            'every constexpr table (8 bases x K=0..10, cumulative, monomial_integral K<=10 x P<=4, lgr_nodes K=1..16). '
+            'distinct_nontrivial = distinct (op, parameters, input bits) with at least one non-zero input')
+    assumptions = ['IEEE rounding of the run-time functions is audited against exact rational evaluation (sampling), not proved',
+                   'LGR Newton iteration is not proved convergent: the produced nodes/weights are checked a posteriori by the kernel',
+                   'integrate_absolute_polynomial inside the threshold bands (0<|A|<1e-9, |B|<=1e-9) and for t0>t1 is outside the theorem',
+                   'search model assumes `wo` is the default ordering on double/int without NaN; casts of NaN/negative alpha are undefined in the C++']
+
+    # ------------------------------------------------------------------ line production
+    def gen_lines(self, ctx, n, seed=None):
+        b = harness()
+        env = {'VERIF_SEED': str(ctx['seed'] if seed is None else seed)}
+        raw = vlib.run_harness(b, [n], env=env)
+        raw += vlib.run_harness(b, ['dump'])
+        return vlib.parse_lines(raw)
+
+    def probe_lines(self):
+        raw = vlib.run_harness(harness(), ['probe'])
+        ok, crashes = [], []
+        for r in raw:
+            if r.startswith('CRASH '):
+                crashes.append(r)
+            elif r.strip():
+                ok.append(Line(r))
+        return ok, crashes
+
+    def eval_lines(self, requests):
+        raw = vlib.run_harness(harness(), ['eval'], stdin='\n'.join(requests) + '\n')
+        return [None if r.startswith('SKIP') else Line(r) for r in raw]
+
+    # ------------------------------------------------------------------ checks on a set of lines
+    def check_lines(self, ctx, lines, probes=None):
+        findings, broken, samples = [], [], []
+        t1 = vlib.t1_compare(lines, tol_ulp=16.0, exact_ops=EXACT_OPS, rng_seed=ctx['seed'])
+        if t1['breaks']:
+            by = {}
+            for b in t1['breaks']:
+                l = Line(b['line'])
+                by.setdefault(l.op, []).append(b)
+            for k, bs in by.items():
+                first = dict(bs[0]); first['line'] = first['line'][:6000]
+                broken.append({'what': 'correspondence', 'name': f'T1 {k} (implementation vs Lean model, 0 ulp)',
+                               'count': len(bs), 'first': first})
+        worst, worst_abs, n_audit, skipped = {}, {}, 0, 0
+
+        def note(k, e):
+            worst[k] = max(worst.get(k, 0.0), e)
+
+        def finding(l, key, err, what, **kw):
+            f = {'property': PID, 'key': key, 'err': err, 'tol': TOL, 'what': what, 'line': l.raw[:6000]}
+            f.update(kw)
+            findings.append(f)
+
+        for l in lines:
+            if l.op in ('poly_monoderiv', 'poly_monoderivs'):
+                e, why = audit_monoderiv(l)
+                n_audit += 1; note(l.op, e if math.isfinite(e) else 0.0)
+                if not (e <= TOL):
+                    finding(l, {'fn': 'monomial_derivative' + ('s' if l.op.endswith('s') else ''), 'region': l.tag}, e,
+                            'monomial_derivative != k!/(k-p)! u^(k-p) ' + why)
+            elif l.op == 'poly_lagrange':
+                r = audit_lagrange(l)
+                if r is None:
+                    skipped += 1; continue
+                n_audit += 1; note(l.op, r[0])
+                worst_abs['poly_lagrange|' + l.tag] = max(worst_abs.get('poly_lagrange|' + l.tag, 0.0), r[1])
+                if not (r[0] <= TOL):
+                    finding(l, {'fn': 'lagrange_basis', 'region': l.tag}, r[0], 'p_i(t_j) != delta_ij (relative to the evaluation scale)')
+            elif l.op == 'poly_basisderivs':
+                r = audit_basisderivs(l)
+                if r is None:
+                    skipped += 1; continue
+                n_audit += 1; note(l.op, r)
+                if not (r <= TOL):
+                    finding(l, {'fn': 'polynomial_basis_derivatives', 'region': l.tag}, r, 'D[i][j] != d/dt p_i(t_j)')
+            elif l.op == 'poly_intabs':
+                r = audit_intabs(l)
+                if r is None:
+                    skipped += 1; continue
+                n_audit += 1; note(l.op + '|' + l.tag, r[0] if math.isfinite(r[0]) else 0.0)
+                if l.tag.startswith('band_'):
+                    worst_abs['poly_intabs|' + l.tag] = max(worst_abs.get('poly_intabs|' + l.tag, 0.0), r[3])
+                if not (r[0] <= TOL):
+                    finding(l, {'fn': 'integrate_absolute_polynomial', 'region': l.tag}, r[0],
+                            f'result {r[2]!r} != integral of |A t^2+B t+C| = {r[1]!r} (error relative to max(1, antiderivative scale))',
+                            inputs=dict(zip(('t0', 't1', 'A', 'B', 'C'), l.in_vals())))
+            elif l.op in ('search_f64', 'search_int'):
+                n_audit += 1
+                why = audit_search(l)
+                if why:
+                    finding(l, {'fn': 'binary_interval_search', 'range': l.op[7:], 'region': l.tag}, None, why)
+            if len(samples) < 8 and l.op not in ('search_f64', 'search_int') and (n_audit % 131 == 1):
+                samples.append({'line': l.raw[:400]})
+        # probes: forked, may crash
+        n_probe = 0
+        if probes is not None:
+            ok, crashes = probes
+            for l in ok:
+                n_probe += 1
+                why = audit_search(l)
+                if why:
+                    finding(l, {'fn': 'binary_interval_search', 'range': l.op[7:], 'region': l.tag}, None, why,
+                            inputs={'t': l.in_vals()[0], 'r': l.in_vals()[1:]})
+            for c in crashes:
+                n_probe += 1
+                body, _, tag = c.partition(' # ')
+                toks = body.split()
+                findings.append({'property': PID, 'key': {'fn': 'binary_interval_search', 'range': toks[1][7:], 'region': tag.strip()},
+                                 'err': None, 'tol': None, 'what': 'implementation crashed: ' + body.split(' | ')[-1], 'line': c[6:][:6000]})
+        strata, sig = {}, set()
+        for l in lines:
+            strata[l.tag] = strata.get(l.tag, 0) + 1
+            if any(v != 0 for v in l.in_vals()) or not l.ins:
+                sig.add((l.op, l.grp, tuple(l.ins)))
+        agg = {}
+        for k, v in t1['stats'].items():
+            op = k.split('|')[0]
+            a = agg.setdefault(op, {'n': 0, 'worst_ulp': 0.0})
+            a['n'] += v['n']; a['worst_ulp'] = max(a['worst_ulp'], v['worst_ulp'])
+        searches = [l for l in lines if l.op.startswith('search')]
+        samples += [{'line': l.raw[:400]} for l in searches[:2]]
+        cov = {'evaluations': len(lines) + n_probe, 'distinct_nontrivial': len(sig), 'rule': self.rule, 'samples': samples,
+               'strata_hits': strata, 't1_stats': agg, 't1_breaks': len(t1['breaks']),
+               'audit_samples': n_audit, 'audit_skipped_nonfinite_or_undefined': skipped, 'audit_worst': worst,
+               'audit_worst_abs_error_informational': worst_abs,
+               'search_cases': len(searches), 'search_max_iters': max([dec(l.outs[1], 'f64') for l in searches], default=0),
+               'probes': n_probe, 'gen_tables': ctx.get('c20_tables', 0),
+               'traces_validated_against_impl': len(lines)}
+        return {'coverage': cov, 'findings': findings, 'broken': broken}
+
+    # ------------------------------------------------------------------ entry points
+    def explore(self, ctx):
+        n = 12 if ctx['tier'] == 'quick' else 150
+        lines = self.gen_lines(ctx, n)
+        return self.check_lines(ctx, lines, probes=self.probe_lines())
+
+    def search(self, ctx, broken):
+        lines = self.gen_lines(ctx, 60 * max(1, ctx.get('budget', 1) // 10), seed=ctx['seed'] + 7919)
+        res = self.check_lines(ctx, lines)
+        return {'coverage': {'evaluations': len(lines)}, 'findings': res['findings']}
+
+    def replay(self, ctx, payload):
+        reqs = []
+        for c in payload.get('cases', []):
+            if 'line' in c:
+                reqs.append(Line(c['line']).request() + (' # ' + Line(c['line']).tag if Line(c['line']).tag else ''))
+        for b in payload.get('no_longer_checks', []):
+            if isinstance(b.get('first'), dict) and 'line' in b['first']:
+                reqs.append(Line(b['first']['line']).request())
+        if not reqs:
+            return {'coverage': {}, 'findings': [], 'broken': payload.get('no_longer_checks', [])}
+        probe_reqs = [r for r in reqs if '# probe_' in r]
+        reqs = [r for r in reqs if '# probe_' not in r]
+        lines = [l for l in self.eval_lines(reqs) if l is not None] if reqs else []
+        probes = self.probe_lines() if probe_reqs else None
+        return self.check_lines(ctx, lines, probes=probes)
+
+
+def make():
+    return C20()
+
+
 if __name__ == '__main__':
     print(gen_tables({}))
